@@ -379,6 +379,48 @@ class PollFn(ModelObj):
         it.drop_value(self.clo)
 
 
+class ReadyFut(ModelObj):
+    """std::future::ready(v) / std::future::pending()"""
+    type_name = "Ready"
+
+    def __init__(self, v, never=False):
+        self.v, self.never = v, never
+
+    def poll(self, it, cx):
+        if self.never:
+            return mk_pending()
+        v, self.v = self.v, MOVED
+        if v is MOVED:
+            raise RustPanic("`Ready` polled after completion")
+        return mk_ready(v)
+
+    def drop(self, it):
+        if not self.never and self.v is not MOVED:
+            it.drop_value(self.v)
+
+
+class CatchUnwind(ModelObj):
+    """futures::FutureExt::catch_unwind: a panic of the inner future becomes Ready(Err(payload))"""
+    type_name = "CatchUnwind"
+
+    def __init__(self, w, fut):
+        self.w, self.fut = w, fut
+
+    def poll(self, it, cx):
+        try:
+            r = self.w.poll_future(it, self.fut, cx)
+        except RustPanic as p:
+            self.w.unwinding_now = False
+            it.ex.event(ev="panic_caught", msg=p.msg[:80])
+            return mk_ready(mk_err(BoxV(Cell(Opaque("PanicPayload", p.msg), "panic payload"), "Box")))
+        if r.variant == "Pending":
+            return r
+        return mk_ready(mk_ok(r.fields[0]))
+
+    def drop(self, it):
+        it.drop_value(self.fut)
+
+
 class JoinHandle(ModelObj):
     type_name = "JoinHandle"
 
@@ -495,7 +537,11 @@ class HookFuture(ModelObj):
             self.yields_left -= 1
             w.current_task_self_wake()
             return mk_pending()
-        out = self.finish(it)
+        try:
+            out = self.finish(it)
+        except RustPanic:
+            it.ex.event(ev="hook_panic", hook=self.kind, actor=self.actor_name)
+            raise
         it.ex.event(ev="hook_exit", hook=self.kind, actor=self.actor_name, out=w.describe(out), **{k: v for k, v in self.info.items() if not k.startswith("_")})
         return mk_ready(out)
 
@@ -562,6 +608,9 @@ class World:
             self.now = z3.simplify(self.now)
         self.touch()
 
+    def mk_catch_unwind(self, fut):
+        return CatchUnwind(self, fut)
+
     def current_task_self_wake(self):
         if self.cur_task is not None:
             self.cur_task.self_wake = True
@@ -620,6 +669,8 @@ class World:
                 v = it.load(v.cell, v.path)
             elif isinstance(v, BoxV):
                 v = v.cell.value
+            elif isinstance(v, Agg) and v.name == "AssertUnwindSafe":
+                v = v.fields[0]
             else:
                 break
         if isinstance(v, ModelObj) and hasattr(v, "poll"):
